@@ -232,9 +232,15 @@ Section Handlers.
   Lemma is_nil_mint n k : is_nil (mint n k) = false.
   Proof. unfold is_nil. apply N.eqb_neq. apply mint_nonzero. Qed.
 
+  Lemma par_stored_redirect p : p_redirect (par_stored_params p) = p_redirect p.
+  Proof. unfold par_stored_params. destruct (p_auth_details p) as [[|d l]|]; reflexivity. Qed.
+  Lemma par_stored_request_uri p : p_request_uri (par_stored_params p) = p_request_uri p.
+  Proof. unfold par_stored_params. destruct (p_auth_details p) as [[|d l]|]; reflexivity. Qed.
+
   Lemma push_auth_rg n now r : rg (push_auth w n now r).
   Proof.
-    unfold push_auth, save_a. destruct (negb _); [exact I|].
+    unfold push_auth, save_a. generalize (par_stored_redirect (pr_params r)) (par_stored_request_uri (pr_params r)).
+    generalize (par_stored_params (pr_params r)). intros sp SPr SPu. destruct (negb _); [exact I|].
     eapply rg_bindq; [apply authenticated_rgq|]. intros [c|] Hc; [|exact I]. cbn in Hc.
     destruct (negb (is_nil (p_request_uri (pr_params r)))); [exact I|].
     remember (client_for_par (w_cfg w) c (p_redirect (pr_params r))) as c' eqn:Ec'.
@@ -243,13 +249,13 @@ Section Handlers.
       apply validate_params_redirect in EV as [NE AL]. subst c'. apply allowed_for_par in AL.
       repeat (cbn; try match goal with |- True => exact I | |- _ /\ _ => split | |- forall _, _ => intro end;
               try match goal with |- redirect_ok _ => idtac | _ => break_goal end).
-      all: split; [cbn; destruct AL as [AL|[U _]]; [right; right; exists c; rewrite (client_of_id _ _ _ _ Hc); auto|right; left; exact U]
-                  |intros _; exact NE].
+      all: split; [cbn; rewrite ?SPr; destruct AL as [AL|[U _]]; [right; right; exists c; rewrite (client_of_id _ _ _ _ Hc); auto|right; left; exact U]
+                  |intros _; cbn; rewrite SPr; exact NE].
     - destruct (validate_optionals _ _ _) as [[e|e p]|] eqn:EV; try exact I.
       apply validate_optionals_redirect in EV.
       repeat (cbn; try match goal with |- True => exact I | |- _ /\ _ => split | |- forall _, _ => intro end;
               try match goal with |- redirect_ok _ => idtac | _ => break_goal end).
-      all: split; [cbn; destruct EV as [EE|AL]; [left; exact EE|subst c'; apply allowed_for_par in AL;
+      all: split; [cbn; rewrite ?SPr; destruct EV as [EE|AL]; [left; exact EE|subst c'; apply allowed_for_par in AL;
                      destruct AL as [AL|[U _]]; [right; right; exists c; rewrite (client_of_id _ _ _ _ Hc); auto|right; left; exact U]]
                   |unfold needs_redirect; cbn; rewrite EF; intros [[_ H]|[H _]]; [discriminate|rewrite is_nil_mint in H; discriminate]].
   Qed.
